@@ -256,7 +256,7 @@ def deterministic_oracles(ctx, rng):
         fams = B.FAMS if n_ <= 1500 else ('clayton',)
         for fam in fams:
             th = 2.0 if fam != 'frank' else 4.0
-            a, b = B.make(fam, th), B.make(fam, th * 1.5)
+            a, b = B.make(fam, th, B.tau_of(fam, th)), B.make(fam, th * 1.5, B.tau_of(fam, th * 1.5))
             a.set_random_state(3)
             b.set_random_state(4)
             checked += 1
@@ -265,12 +265,14 @@ def deterministic_oracles(ctx, rng):
                     first = a.sample(n_)
                     keep = np.array(first, copy=True)
                     b.sample(n_)
-                    other = B.make('clayton', 1.0)
+                    other = B.make('clayton', 1.0, B.tau_of('clayton', 1.0))
                     other.set_random_state(5)
                     other.sample(n_)
                     a.sample(n_)
             except Exception as e:  # noqa
-                ctx.count(f'sample-ownership:{fam}:raises({vc.exc_kind(e)})')
+                found += 1
+                ctx.fail_input(f'{fam}.sample', {'theta': th, 'n': n_, 'history': 'a.sample(n); b.sample(n); clayton.sample(n); a.sample(n)'},
+                               f'{vc.exc_kind(e)}: {e}'[:200], 'sampling works on parameterised models', f'{fam}.sample:raises')
                 continue
             if not np.array_equal(np.asarray(first), keep):
                 found += 1
